@@ -13,7 +13,7 @@ LEVEL = "exploration"
 RULE = (
     "every call of TDGLSolver.solve_for_psi_squared made by Engine-A runs of a swarm of workloads (gamma in {0,0.1,1,10}, u, "
     "epsilon in [-1,1] constant/spatial/time-dependent, dt_init over 1e-6..10, pinned zeros, strong drives, screening, "
-    "injected refusals excluded); a run is non-trivial when at least 3 calls were checked; distinct = distinct scenario digests"
+    "injected refusals excluded), including that its epsilon argument is the declared epsilon(r, t^n); a run is non-trivial when at least 3 calls were checked; distinct = distinct scenario digests"
 )
 BUDGET = {"quick": {"runs": 700, "chunk": 10}, "thorough": {"runs": 120000, "chunk": 20}}
 COMPONENTS = {"real": ["TDGLSolver.solve_for_psi_squared and everything that feeds it (update, operators, drives)"], "stub": ["wall clock", "validator RNG (seeded)"]}
